@@ -106,11 +106,12 @@ struct transform_ptr {
 
 	constexpr transform_ptr(pointer ptr, UF fun) : p_{ptr}, f_(std::move(fun)) {}
 
-	template<class Other, class P = typename Other::pointer, decltype(detail::implicit_cast<pointer>(std::declval<P>()))* =nullptr>
+	// the reference types must convert too: the rebind to const (reference `T const&`) does not convert back to the pointer it came from
+	template<class Other, class P = typename Other::pointer, decltype(detail::implicit_cast<pointer>(std::declval<P>()))* =nullptr, std::enable_if_t<std::is_convertible_v<typename Other::reference, reference>, int> =0>  // NOLINT(modernize-use-constraints) for C++20
 	// cppcheck-suppress noExplicitConstructor
 	constexpr /*mplc*/ transform_ptr(Other const& other) : p_{other.p_}, f_{other.f_} {}  // NOLINT(google-explicit-constructor,hicpp-explicit-conversions) // NOSONAR(cpp:S1709)
 
-	template<class Other, class P = typename Other::pointer, decltype(detail::explicit_cast<pointer>(std::declval<P>()))* =nullptr>
+	template<class Other, class P = typename Other::pointer, decltype(detail::explicit_cast<pointer>(std::declval<P>()))* =nullptr, std::enable_if_t<std::is_convertible_v<typename Other::reference, reference>, int> =0>  // NOLINT(modernize-use-constraints) for C++20
 	constexpr explicit transform_ptr(Other const& other) : p_{other.p_}, f_{other.f_} {}
 
 	// constexpr auto functor() const -> UF {return f_;}
